@@ -144,8 +144,11 @@ public:
     record* entry=pop(data_list);
     if(!entry) //no cached memory available
       return(T());
+    //copy the payload out before the record is put back on the free list: once
+    //it is there a concurrent insert may reuse it and overwrite the data
+    T result=entry->data;
     push(free_list,entry);
-    return(*entry);
+    return(result);
   }
 };
   
